@@ -20,6 +20,22 @@ pub fn like<A: EncodeLike<B>, B: Encode + Decode + Spec, const N: usize>(a: &A, 
 	}
 }
 
+/// same for sequence-like B: the count the encoder wrote is asserted and served concretely (rule R2)
+pub fn like_cnt<A: EncodeLike<B>, B: Encode + Decode + Spec, const N: usize>(a: &A, b: &B, c: usize, fixed_len: Option<usize>) {
+	let mut ba = Buf::<N>::new();
+	a.encode_to(&mut ba);
+	let mut bb = Buf::<N>::new();
+	b.encode_to(&mut bb);
+	assert!(same_bytes(&ba, &bb), "a type declared EncodeLike<B> does not produce B's bytes");
+	assert!(ba.n >= 1 && ba.d[0] == (c as u8) << 2);
+	let end = match fixed_len { Some(l) => { assert!(ba.n == 1 + l); 1 + l }, None => ba.n };
+	let mut inp = Pre::count(c, &ba.d[1..end]);
+	match B::decode(&mut inp) {
+		Ok(d) => { assert!(d.same(b) && inp.rest.is_empty(), "bytes of an EncodeLike<B> value decode to a different B"); core::mem::forget(d); },
+		Err(_) => { assert!(false, "bytes of an EncodeLike<B> value do not decode as B"); },
+	}
+}
+
 fn pointers<T: Encode + Decode + Spec + Sym + Clone + EncodeLike, const N: usize>(c: usize) {
 	let mut v = T::sym(c);
 	let w = v.clone();
@@ -53,7 +69,7 @@ pub fn c16t_pointers_opt_bool() { pointers::<Option<bool>, 4>(0) }
 #[kani::unwind(8)]
 pub fn c16q_string_str() {
 	let s = String::sym(2);
-	like::<&str, String, 8>(&s.as_str(), &s);
+	like_cnt::<&str, String, 8>(&s.as_str(), &s, 2, Some(2));
 	// String: EncodeLike<&str>: B = &str cannot be decoded; compare bytes only
 	let mut a = Buf::<8>::new(); s.encode_to(&mut a);
 	let mut b = Buf::<8>::new(); s.as_str().encode_to(&mut b);
@@ -115,36 +131,44 @@ pub fn c16q_sequences() {
 	assert!(same_bytes(&a, &b) && same_bytes(&a, &c));
 	core::mem::forget(vr); core::mem::forget((v, d));
 }
+fn need<A: EncodeLike<B>, B: Encode>() {}
 #[kani::proof]
 #[kani::unwind(8)]
-pub fn c16q_collections_vs_slices() {
+pub fn c16q_list_vs_slice() {
 	let x: [u8; 2] = kani::any();
-	// list
 	let mut l = LinkedList::new(); l.push_back(x[0]); l.push_back(x[1]);
 	let sl: &[(u8,)] = &[(x[0],), (x[1],)];
-	like::<&[(u8,)], LinkedList<u8>, 8>(&sl, &l);
+	like_cnt::<&[(u8,)], LinkedList<u8>, 8>(&sl, &l, 2, Some(2));
 	let mut lr = LinkedList::new(); lr.push_back(&x[0]); lr.push_back(&x[1]);
-	like::<LinkedList<&u8>, LinkedList<u8>, 8>(&lr, &l);
-	// map with one symbolic entry
+	like_cnt::<LinkedList<&u8>, LinkedList<u8>, 8>(&lr, &l, 2, Some(2));
+	need::<LinkedList<u8>, &[(u8,)]>();
+	core::mem::forget((l, lr));
+}
+#[kani::proof]
+#[kani::unwind(8)]
+pub fn c16q_map_vs_slice() {
+	let x: [u8; 2] = kani::any();
 	let mut m = BTreeMap::new(); m.insert(x[0], x[1]);
 	let ms: &[(u8, u8)] = &[(x[0], x[1])];
-	like::<&[(u8, u8)], BTreeMap<u8, u8>, 8>(&ms, &m);
+	like_cnt::<&[(u8, u8)], BTreeMap<u8, u8>, 8>(&ms, &m, 1, Some(2));
 	let mut mr = BTreeMap::new(); mr.insert(&x[0], Box::new(x[1]));
-	like::<BTreeMap<&u8, Box<u8>>, BTreeMap<u8, u8>, 8>(&mr, &m);
-	// set
+	like_cnt::<BTreeMap<&u8, Box<u8>>, BTreeMap<u8, u8>, 8>(&mr, &m, 1, Some(2));
+	need::<BTreeMap<u8, u8>, &[(u8, u8)]>();
+	core::mem::forget((m, mr));
+}
+#[kani::proof]
+#[kani::unwind(8)]
+pub fn c16q_set_heap_vs_slice() {
+	let x: [u8; 2] = kani::any();
 	let mut s = BTreeSet::new(); s.insert(x[0]);
 	let ss: &[(u8,)] = &[(x[0],)];
-	like::<&[(u8,)], BTreeSet<u8>, 8>(&ss, &s);
-	// heap with one entry
+	like_cnt::<&[(u8,)], BTreeSet<u8>, 8>(&ss, &s, 1, Some(1));
 	let mut h = BinaryHeap::new(); h.push(x[1]);
 	let hs: &[(u8,)] = &[(x[1],)];
-	like::<&[(u8,)], BinaryHeap<u8>, 8>(&hs, &h);
-	fn need<A: EncodeLike<B>, B: Encode>() {}
-	need::<BTreeMap<u8, u8>, &[(u8, u8)]>();
+	like_cnt::<&[(u8,)], BinaryHeap<u8>, 8>(&hs, &h, 1, Some(1));
 	need::<BTreeSet<u8>, &[(u8,)]>();
-	need::<LinkedList<u8>, &[(u8,)]>();
 	need::<BinaryHeap<u8>, &[(u8,)]>();
-	core::mem::forget((l, lr, m, mr, s, h));
+	core::mem::forget((s, h));
 }
 #[kani::proof]
 #[kani::unwind(19)]
